@@ -65,6 +65,15 @@ pub fn dump_main(args: &[String]) {
             let items: Vec<String> = v.as_array().cloned().unwrap_or_default().iter().map(|i| format!("{} [{}]", i["title"].as_str().unwrap_or(""), i["kind"].as_str().unwrap_or(""))).collect();
             o.insert("lsp-code-actions".to_string(), items.join("\n"));
         }
+        // references in the order answered: several blocks of one note (paragraphs, items, a quote, block references) name the
+        // same target, so the order *within* a file is visible
+        for target in ["tl1", "tl2"] {
+            let turi = s.uri(target);
+            if let Outcome::Result(v) = s.request("textDocument/references", json!({"textDocument": {"uri": turi}, "position": {"line": 0, "character": 0}, "context": {"includeDeclaration": false}})) {
+                let items: Vec<String> = v.as_array().cloned().unwrap_or_default().iter().map(|i| format!("{}:{}-{}", i["uri"].as_str().unwrap_or(""), i["range"]["start"]["line"], i["range"]["end"]["line"])).collect();
+                o.insert(format!("lsp-references-{}", target), items.join("\n"));
+            }
+        }
         let _ = s.shutdown();
     }
     println!("{}", serde_json::to_string(&o).unwrap());
@@ -75,7 +84,7 @@ impl Check for C16 {
         "C16"
     }
     fn rule(&self) -> String {
-        "case = one generated library (50-400 notes, dense cross references, duplicate titles, equal ranks) dumped by N separate processes (fresh hash seeds) with RAYON_NUM_THREADS in {1,2,3,4,8,16}, the state map filled in permuted orders, built by Graph::import and by one-by-one inserts in permuted orders; the canonical dump (formatted files, titles, backlink sets with lines, rendered paths, ordered search results, node-at-line; plus, from an LSP server on the same library with nine configured block actions (three of them sharing a title), the completion list and the code-action list in the order answered) of all processes must be byte-identical; distinct = (build mode, thread count, permutation) configurations that produced a dump".into()
+        "case = one generated library (50-400 notes, dense cross references, duplicate titles, equal ranks) dumped by N separate processes (fresh hash seeds) with RAYON_NUM_THREADS in {1,2,3,4,8,16}, the state map filled in permuted orders, built by Graph::import and by one-by-one inserts in permuted orders; the canonical dump (formatted files, titles, backlink sets with lines, rendered paths, ordered search results, node-at-line; plus, from an LSP server on the same library with nine configured block actions (three of them sharing a title), the completion list, the code-action list and the reference lists of two notes that one note names from a dozen blocks, in the order answered) of all processes must be byte-identical; distinct = (build mode, thread count, permutation) configurations that produced a dump".into()
     }
     fn assumptions(&self) -> Vec<String> {
         vec!["each dump comes from its own OS process, so HashMap RandomState differs between dumps".into()]
@@ -121,6 +130,8 @@ impl Check for C16 {
         lib.insert("tl2".into(), "# Beta title\n".into());
         lib.insert("tl3".into(), "# Gamma\n\n[x](tl1)\n\ninline [y](tl1) link\n".into());
         lib.insert("tl4".into(), "# [back](tl1)\n\n[z](tl1)\n".into());
+        // one note that names the same targets from many blocks (the order of locations inside one file)
+        lib.insert("tlm".into(), "# Many\n\none [a](tl2) par\n\ntwo [b](tl2) and [c](tl1)\n\n[d](tl2)\n\n- item [e](tl2)\n- item [f](tl1)\n\n> quoted [g](tl2)\n\nthree [h](tl2)\n\n[i](tl1)\n\nfour [j](tl2) [k](tl2)\n\nfive [l](tl1)\n\n[m](tl2)\n\nsix [n](tl2)\n".into());
         for (i, tail) in ["", " 日本", " title: x", " and more", " x"].iter().enumerate() {
             lib.insert(format!("hq{}", i), format!("# \\*\\* \\[ref\\]: http://r\\*\\*&lt;div&gt;{}\n", tail));
             lib.insert(format!("hp{}", i), format!("# shared long prefix of several titles{}\n", tail));
